@@ -227,11 +227,15 @@ class Composite(Datum):
         deep_merge(merge_steps, steps)
         deep_merge(merge_flow, flow)
         deep_merge(merge_state, state)
-        merge_processes = assoc_in({}, path, merge_processes)
-        merge_topology = assoc_in({}, path, merge_topology)
-        merge_steps = assoc_in({}, path, merge_steps)
-        merge_flow = assoc_in({}, path, merge_flow)
-        merge_state = assoc_in({}, path, merge_state)
+        # copy the (nested) dictionaries, so that what is merged into this
+        # composite now or later never lands in the merged-in composite
+        merge_processes = deep_copy_internal(
+            assoc_in({}, path, merge_processes))
+        merge_topology = deep_copy_internal(
+            assoc_in({}, path, merge_topology))
+        merge_steps = deep_copy_internal(assoc_in({}, path, merge_steps))
+        merge_flow = deep_copy_internal(assoc_in({}, path, merge_flow))
+        merge_state = deep_copy_internal(assoc_in({}, path, merge_state))
 
         # merge with instance processes and topology
         deep_merge(self.processes, merge_processes)
